@@ -78,6 +78,10 @@ def make_plan(seed: int, tier: str, index: int) -> dict[str, Any]:
     for k in range(CASES_PER_LONG_RUN if long_run else CASES_PER_RUN):
         if k % 6 == 0 or base_doc is None:
             base_doc = gen.gen_doc(g, small=g.random() < (0.2 if long_run else 0.6))
+            if g.random() < 0.08:
+                gen.add_far_events(g, base_doc)
+            if index % 16 == 5 and k == 0:
+                gen.add_many_notes(g, base_doc, g.choice([520, 700, 1100]))
         if f.random() < (0.05 if long_run else 0.3):
             lines = corrupt.assemble(f)
             ops: list[dict[str, Any]] = []
